@@ -67,6 +67,7 @@ struct Problem
     double scale;
     bool clean = true;       // drawn from the domain on which the strict oracle is silent on the repaired tree (DESIGN section 4)
     std::string tag;         // corpus label (empty in the seeded exploration)
+    bool tight = false;      // second corpus part: well-behaved classes far from unit norm, tight tolerances, long runs
     MatCLD AL;               // what the operator holds, exactly, in extended precision
     Eigen::VectorXd spec;    // reference spectrum (double is plenty: only norms and gaps are taken from it)
     Eigen::MatrixXcd evecs;  // reference eigenvectors (start-vector generator)
@@ -187,7 +188,7 @@ static void run_history(vf::Ctx& ctx, const Problem& P, Solver& es, vw::OpCtl& c
         else if (op == 'V')
         {
             VecS v0(P.n);
-            const int sk = P.clean ? 0 : (int) r.range(0, 3);
+            const int sk = (P.clean || P.tight) ? 0 : (int) r.range(0, 3);
             if (sk == 0) { for (int i = 0; i < P.n; i++) v0[i] = Scalar(T(r.gauss())); startkind = "gaussian"; }
             else if (sk == 1)
             {
@@ -223,6 +224,7 @@ static void run_history(vf::Ctx& ctx, const Problem& P, Solver& es, vw::OpCtl& c
         else
         {
             ComputeArgs a{r.pick(SYM_SELECT), r.pick(maxits), r.pick(tols), r.pick(SYM_SORT)};
+            if (P.tight) { a.maxit = 1000; a.tol = r.pick(std::vector<T>{T(1e-11), T(1e-12), T(1e-13), T(1e-14)}); }
             const std::string shape = computed_since_init ? "after-compute" : "after-init";
             const long it0 = (long) es.num_iterations();
             ctl.limit = ctl.count + 8 * (4 + 2 * (long) P.ncv * (a.maxit + 2));  // termination guard only; the work bound itself is C13's property
@@ -266,7 +268,11 @@ static const int GROUP_NK[3] = {3, 2, 2};
 static const char* KSHORT[] = {"sym-dense", "sym-sparse", "sym-userop", "herm-dense", "herm-sparse", "symshift-dense", "symshift-sparse"};
 static long n_explore(const vf::Ctx& ctx) { return (ctx.thorough ? 4000L : 330L) * GROUP_NK[C01_GROUP]; }
 // fixed regression corpus over the finding-prone domain: double only, independent of VERIF_SEED
-static long n_corpus() { return sizeof(T) == 8 ? 70L * GROUP_NK[C01_GROUP] : 0L; }
+// second part (ids from 70 per kind upward): the well-behaved matrix classes at norms 1e-8..1e-3 and 1e3..1e8, tight tolerances, runs of up to 1000 restarts -
+// the absolute thresholds of the factorization make this domain finding-prone (DESIGN 4.2), but most of its members pass, and they are the regression net for
+// anything that only matters far from unit norm
+static long n_corpus1() { return sizeof(T) == 8 ? 70L * GROUP_NK[C01_GROUP] : 0L; }
+static long n_corpus() { return sizeof(T) == 8 ? (70L + 60L) * GROUP_NK[C01_GROUP] : 0L; }
 long vf_ncases(const vf::Ctx& ctx) { return n_explore(ctx) + n_corpus(); }
 
 static bool is_clean_class(int cls) { return cls == 0 || cls == 6 || cls == 7 || cls == 10 || cls == 11; }
@@ -281,14 +287,15 @@ void vf_run_case(vf::Ctx& ctx, long idx)
     if (corpus)
     {
         ctx.case_rng("c01_corpus", ci, true);
-        P.tag = std::string("corpus/") + KSHORT[P.kind] + "/" + std::to_string(ci);
+        P.tight = ci >= n_corpus1();
+        P.tag = std::string(P.tight ? "corpus/scaled/" : "corpus/") + KSHORT[P.kind] + "/" + std::to_string(ci);
         ctx.set_tag(P.tag);
     }
     P.clean = !corpus;
     const int nmax = ctx.thorough && !corpus ? ((sizeof(T) == 8 && r.coin(0.15)) ? 200 : 80) : 60;
     // the strict oracle needs n >= 5: for tiny n the first Lanczos vectors are not re-orthogonalised (Arnoldi::init), the loss is u*||A||/beta_1;
     // tiny problems are exercised in the corpus and by C13
-    vg::Config c = vg::sym_config(r, corpus ? 2 : 5, nmax);
+    vg::Config c = vg::sym_config(r, corpus && !P.tight ? 2 : 5, nmax);
     P.n = c.n; P.nev = c.nev; P.ncv = c.ncv;
     const int dec = sizeof(T) == 4 ? 4 : 8;
     if (P.clean)
@@ -297,6 +304,12 @@ void vf_run_case(vf::Ctx& ctx, long idx)
         static const int CLEAN[] = {0, 6, 7, 10, 11};
         P.cls = CLEAN[r.range(0, 4)];
         P.scale = r.coin(0.6) ? 1.0 : std::pow(10.0, (double) r.range(-2, 2));
+    }
+    else if (P.tight)
+    {
+        static const int CLEAN[] = {0, 6, 7, 10, 11};
+        P.cls = CLEAN[r.range(0, 4)];
+        P.scale = std::pow(10.0, (double) (r.coin(0.7) ? -r.range(3, 12) : r.range(3, 8)));
     }
     else
     {
@@ -333,7 +346,7 @@ void vf_run_case(vf::Ctx& ctx, long idx)
         // sigma at a prescribed relative distance (1e-1 .. 1e-6 of the spread) from an eigenvalue, never on one
         const double spread = std::max(P.spec[P.n - 1] - P.spec[0], 1e-300 + std::abs(P.spec[0]) * 1e-3);
         const int j = (int) r.range(0, P.n - 1);
-        const double rel = P.clean ? (r.coin() ? 0.1 : (r.coin() ? 0.03 : 0.01)) : std::pow(10.0, -(double) r.range(1, sizeof(T) == 4 ? 3 : 6));
+        const double rel = (P.clean || P.tight) ? (r.coin() ? 0.1 : (r.coin() ? 0.03 : 0.01)) : std::pow(10.0, -(double) r.range(1, sizeof(T) == 4 ? 3 : 6));
         double s = P.spec[j] + (r.coin() ? 1 : -1) * rel * (spread > 0 ? spread : 1.0);
         if (r.coin(0.2)) s = P.spec[0] - spread * r.uni(0.05, 0.5);
         P.sigma = T(s);
